@@ -135,7 +135,7 @@ func ruleT1(c *Ctx) {
 func rpcCallIn(m *Module, f *ssa.Function) (ssa.CallInstruction, *ssa.Function) {
 	for _, ci := range calls(f) {
 		if g := m.callee(ci.Common()); g != nil {
-			if rn := recvNamed(g); rn != nil && rn.Obj().Name() == "pluginType" && g.Signature.Results().Len() > 0 && !strings.HasPrefix(g.Name(), "is") {
+			if rn := recvNamed(g); rn != nil && tname(rn.Obj()) == "pluginType" && g.Signature.Results().Len() > 0 && !strings.HasPrefix(g.Name(), "is") {
 				return ci, g
 			}
 		}
@@ -177,7 +177,7 @@ func ruleT2(c *Ctx) {
 			// a wrapper predicate on the plugin: a *plugin method taking the event whose body consults events.IsSet with it
 			for _, ci := range calls(f) {
 				g := m.callee(ci.Common())
-				if g == nil || recvNamed(g) == nil || recvNamed(g).Obj().Name() != "plugin" || len(g.Params) != 2 {
+				if g == nil || recvNamed(g) == nil || tname(recvNamed(g).Obj()) != "plugin" || len(g.Params) != 2 {
 					continue
 				}
 				for _, cj := range m.callsTo(g, isSet) {
